@@ -32,20 +32,55 @@ def sections(dump):
     return out
 
 
-def spec_on_impl(ops, obs, pkg_imports):
-    """Evaluate the property predicate on the implementation's own observations of one history.
-    Returns (ok, why, step)."""
-    prev_nodes, prev_pkgs = set(), set()
+def parse_dump(dump):
+    sec = sections(dump)
+    nodes = {}
+    for e in filter(None, sec.get("N", "").split(",")):
+        p = e.split(":")
+        nodes[p[0]] = p
+    args = {}
+    for m in re.finditer(r"(\d+):\(([^)]*)\)", sec.get("A", "")):
+        args[m.group(1)] = [tuple(a.split("=")) for a in m.group(2).split(",") if a]
+    aliases = {}
+    for e in filter(None, sec.get("L", "").split(",")):
+        a, src = e.split(":")
+        aliases[a] = tuple(src.split("."))
+    exports = {}
+    for e in filter(None, sec.get("E", "").split(",")):
+        n, x = e.split("=")
+        exports[n] = x
+    slot2pkg = {}
+    for e in filter(None, sec.get("P", "").split(",")):
+        u, sl = e.split("=")
+        slot2pkg[sl] = u
+    edges = set()
+    for e in filter(None, sec.get("G", "").split(",")):
+        a, rest = e.split(">")
+        b, k = rest.split(":")
+        edges.add((a, b, k))
+    implicit = len(re.findall(r"\((\d+),(\d+),-\)", sec.get("I", "")))
+    return dict(sec=sec, nodes=nodes, args=args, aliases=aliases, exports=exports, slot2pkg=slot2pkg,
+                edges=edges, implicit=implicit)
+
+
+def spec_on_impl(ops, obs, uni):
+    """Evaluate the property predicate on the implementation's own observations of one history:
+    no panic on live identifiers, documented post-condition of every operation, failed operations leave no trace,
+    queries mutually consistent, internal invariants (hook), dependants tracked. Returns (ok, why, step)."""
+    pkg_imports, ty_of_kind, ty_deps = uni["pkg_imports"], uni["ty_of_kind"], uni["ty_deps"]
+    prev = None
+    prev_dump = None
     for k, (op, ob) in enumerate(zip(ops, obs)):
         if ob == "SKIPPED":
             break
         res, _, dump = ob.partition("|")
         f = op.split(" ")
-        # identifiers used by the op
         node_args = {"alias": [1], "setarg": [1, 3], "unsetarg": [1, 3], "export": [1], "unexport": [1], "name": [1], "rm": [1]}
         used_nodes = [f[i] for i in node_args.get(f[0], [])]
         used_pkg = (f[1] + "." + f[2]) if f[0] in ("unreg", "inst") else None
-        all_live = all(n in prev_nodes for n in used_nodes) and (used_pkg is None or used_pkg in prev_pkgs)
+        pn = prev["nodes"] if prev else {}
+        pp = prev["slot2pkg"] if prev else {}
+        all_live = all(n in pn for n in used_nodes) and (used_pkg is None or used_pkg in pp)
         if res.startswith("PANIC"):
             if all_live:
                 return False, f"operation on live identifiers panicked: {res}", k
@@ -54,50 +89,81 @@ def spec_on_impl(ops, obs, pkg_imports):
             return False, f"graph no longer encodes: {res[:160]}", k
         if dump == "DUMP-PANIC":
             return False, "a query panicked", k
-        sec = sections(dump)
-        if "V" in sec and sec["V"]:
+        d = parse_dump(dump)
+        sec, nodes = d["sec"], d["nodes"]
+        if sec.get("V"):
             return False, "internal invariant violated: " + sec["V"][:200], k
-        nodes = {}
-        for e in filter(None, sec.get("N", "").split(",")):
-            p = e.split(":")
-            nodes[p[0]] = p
-        # exports and alias sources refer to live nodes
-        for e in filter(None, sec.get("E", "").split(",")):
-            if e.split("=")[1] not in nodes:
-                return False, f"export entry {e} refers to a dead node", k
-        for e in filter(None, sec.get("L", "").split(",")):
-            a, src = e.split(":")
-            if a not in nodes or src.split(".")[0] not in nodes:
-                return False, f"alias source {e} refers to a dead node", k
-        # arguments: sources live; unsatisfied = listed implicit imports (count check per history step)
+        # a failed operation (documented error) and a query leave no trace
+        if (res.startswith("E:") or res.startswith("enc:")) and prev_dump is not None and dump != prev_dump:
+            return False, f"operation failed with {res} but changed the graph", k
+        for nm, x in d["exports"].items():
+            if x not in nodes:
+                return False, f"export {nm}={x} refers to a dead node", k
+        for a, (src, _) in d["aliases"].items():
+            if a not in nodes or src not in nodes:
+                return False, f"alias source {a}:{src} refers to a dead node", k
         nargs = 0
-        for m in re.finditer(r"(\d+):\(([^)]*)\)", sec.get("A", "")):
-            for a in filter(None, m.group(2).split(",")):
+        for i, l in d["args"].items():
+            for (a, src) in l:
                 nargs += 1
-                if a.split("=")[1] not in nodes:
-                    return False, f"argument {a} of {m.group(1)} comes from a dead node", k
-        expected_implicit = sum(len(pkg_imports.get(p[2].split(".")[0] if False else p[2], [])) for p in nodes.values() if p[1] == "S")
-        implicit = len([1 for m in re.finditer(r"\((\d+),(\d+),-\)", sec.get("I", ""))])
-        # expected_implicit is computed below from the package *slot*; map slot -> universe pkg through P[]
-        slot2pkg = {}
-        for e in filter(None, sec.get("P", "").split(",")):
-            u, sl = e.split("=")
-            slot2pkg[sl] = u
+                if src not in nodes:
+                    return False, f"argument {a} of {i} comes from a dead node", k
         exp = 0
         for p in nodes.values():
             if p[1] == "S":
-                if p[2] not in slot2pkg:
+                if p[2] not in d["slot2pkg"]:
                     return False, f"instantiation {p[0]} refers to dead package {p[2]}", k
-                exp += len(pkg_imports[slot2pkg[p[2]]])
-        if implicit != exp - nargs:
-            return False, f"import listing has {implicit} implicit imports, expected {exp}-{nargs}", k
-        # removal leaves no trace
-        if f[0] == "rm" and res == "ok":
-            n = f[1]
-            if n in nodes and False:
-                pass
-        prev_nodes = set(nodes)
-        prev_pkgs = set(slot2pkg)
+                exp += len(pkg_imports[d["slot2pkg"][p[2]]])
+            if p[1] == "A" and p[0] not in d["aliases"]:
+                return False, f"alias node {p[0]} has no source", k
+            if p[2] != "-" and p[2] not in d["slot2pkg"]:
+                return False, f"node {p[0]} belongs to dead package {p[2]}", k
+        if d["implicit"] != exp - nargs:
+            return False, f"import listing has {d['implicit']} implicit imports, expected {exp}-{nargs}", k
+        # dependants are tracked: every live definition that refers to another live definition has the edge
+        defs = {p[0]: ty_of_kind.get(p[3]) for p in nodes.values() if p[1] == "D"}
+        for b, tb in defs.items():
+            for a, ta in defs.items():
+                if a != b and tb is not None and ta is not None and ta in ty_deps.get(tb, []) and (a, b, "d") not in d["edges"]:
+                    return False, f"definition {b} depends on definition {a} but no dependency is recorded", k
+        # documented post-conditions of successful operations
+        ok = res == "ok" or res.startswith("n") or res.startswith("pkg")
+        if ok and prev is not None or ok:
+            if f[0] == "setarg" and (f[2], f[3]) not in d["args"].get(f[1], []):
+                return False, "set argument is not listed", k
+            if f[0] == "unsetarg" and (f[2], f[3]) in d["args"].get(f[1], []):
+                return False, "unset argument is still listed", k
+            if f[0] == "rm":
+                if f[1] in nodes:
+                    return False, "removed node is still listed", k
+                # its alias/dependency descendants are gone as well
+                gone = {f[1]}
+                changed = True
+                pe = prev["edges"] if prev else set()
+                while changed:
+                    changed = False
+                    for (a, b, kk) in pe:
+                        if a in gone and b not in gone and (kk.startswith("a") or kk == "d"):
+                            gone.add(b); changed = True
+                if set(pn) - gone != set(nodes):
+                    return False, f"removal did not remove exactly the node and its dependants: expected {sorted(set(pn) - gone)} got {sorted(nodes)}", k
+            if f[0] == "unreg":
+                if any(p[2] == used_pkg for p in nodes.values()):
+                    return False, "node of the unregistered package survives", k
+                survivors = {n for n, p in pn.items() if p[2] != used_pkg}
+                if survivors != set(nodes):
+                    return False, "unregister removed or kept the wrong nodes", k
+            if f[0] == "export" and d["exports"].get(f[2]) != f[1]:
+                return False, "exported name does not map to the node", k
+            if f[0] == "unexport" and f[1] in d["exports"].values():
+                return False, "unexported node still has an export name", k
+            if f[0] == "alias" and res.startswith("n"):
+                if d["aliases"].get(res[1:]) != (f[1], f[2]):
+                    return False, "alias node does not report the requested source/export", k
+            if f[0] in ("def", "imp", "inst") and res.startswith("n") and res[1:] not in nodes:
+                return False, "created node is not listed", k
+        prev = d
+        prev_dump = dump
     return True, "", -1
 
 
@@ -132,12 +198,14 @@ def run(res, tier, seed, replay):
         rc, out = vlib.sh(f"{os.path.join(vlib.BUILD, 'c06', 'driver')} < {c} > {m}", timeout=3000)
         cases += open(c).read().split("\n")[:-1]; impl += open(i).read().split("\n")[:-1]; model += open(m).read().split("\n")[:-1]
     assert len(cases) == len(impl) == len(model)
-    pkg_imports = {}
+    uni = dict(pkg_imports={}, ty_of_kind={}, ty_deps={})
     for c in cases:
+        f = c.split(" ")
         if c.startswith("U pkg "):
-            f = c.split(" ")
-            imps = f[4].split("=", 1)[1]
-            pkg_imports[f[2]] = [x for x in imps.split(",") if x]
+            uni["pkg_imports"][f[2]] = [x for x in f[4].split("=", 1)[1].split(",") if x]
+        if c.startswith("U ty "):
+            uni["ty_of_kind"][f[4].split("=")[1]] = f[2]
+            uni["ty_deps"][f[2]] = [x for x in f[5].split("=", 1)[1].split(",") if x and x != f[2]]
     nh = 0; steps = 0; disagreements = []; prop_fail = []; shapes = set(); opkinds = {}; outcomes = {}
     for c, i, m in zip(cases, impl, model):
         if not c.startswith("H "):
@@ -158,7 +226,7 @@ def run(res, tier, seed, replay):
             a2 = re.sub(r"V\[[^\]]*\]$", "", a2)
             if a2 != b2:
                 disagreements.append((c, k, a, b)); break
-        okp, why, k = spec_on_impl(ops, io, pkg_imports)
+        okp, why, k = spec_on_impl(ops, io, uni)
         if not okp:
             prop_fail.append((c, k, why, io[k] if 0 <= k < len(io) else ""))
         # non-trivial: a removal (rm/unreg) of something that had dependants, arguments or exports
@@ -193,6 +261,33 @@ def run(res, tier, seed, replay):
                        "encode outcome class is not predicted by this model (C01/C02/C03); only 'no panic / no validation failure' is required here"]
     for c, k, why, ob in prop_fail[:5]:
         res.violation(dict(kind="property-fails-on-implementation", what=why, case=c, step=k, observation=ob[:2000], cases=[c]))
+    searched = 0
+    if not prop_fail and (disagreements or res.proof_broken) and not replay:
+        # search: extend the disagreeing prefixes (or, for a broken proof only, the corpus) by every 1- and 2-op continuation
+        # and evaluate the property predicate on the implementation
+        pref = []
+        for c, k, a, b in disagreements[:6]:
+            ops = [o for o in c[2:].split(";") if o]
+            pref.append("H " + ";".join(ops[:k + 1]))
+        if not pref:
+            pref = [l for l in open(corpus).read().split("\n") if l.startswith("H ")][:4]
+        pf = os.path.join(rd, "search_prefixes.txt"); open(pf, "w").write("\n".join(dict.fromkeys(pref)) + "\n")
+        sc, si = os.path.join(rd, "search.cases.txt"), os.path.join(rd, "search.impl.txt")
+        rc, out = vlib.sh(f"{vlib.hbin('c06')} extend {seed} {sc} {si} {pf}", timeout=3000)
+        if rc == 0:
+            for c, i in zip(open(sc).read().split("\n")[:-1], open(si).read().split("\n")[:-1]):
+                if not c.startswith("H "):
+                    continue
+                searched += 1
+                ops = [o for o in c[2:].split(";") if o]
+                io = i.split(";;")
+                okp, why, k = spec_on_impl(ops, io, uni)
+                if not okp:
+                    prop_fail.append((c, k, why, io[k] if 0 <= k < len(io) else "")); break
+        for c, k, why, ob in prop_fail[:1]:
+            res.violation(dict(kind="property-fails-on-implementation", found_by="search from a broken correspondence/proof",
+                               what=why, case=c, step=k, observation=ob[:2000], cases=[c]))
+    res.coverage["search_cases"] = searched
     if not prop_fail:
         if disagreements:
             c, k, a, b = disagreements[0]
